@@ -340,9 +340,10 @@ def check_gamma(case, ctx, h, X):
             _GAMMA_WORST[k] = max(em, ev)
             ctx.extra["gamma_worst_rel_err"] = [[a, b] for a, b in sorted(_GAMMA_WORST.items())]
     if risk:
-        # any mismatch in the overflow regime is the overflow defect
-        if vs:
-            out.append(Violation("gamma:overflow:wrong_result", vs[0].msg, **vs[0].detail))
+        # Before the repair dc9000d every mismatch in this regime was the overflow defect. The
+        # factors that overflowed are gone, so a mismatch here is now judged like any other (it is
+        # the cancellation finding when the rounding model explains it, a new violation otherwise).
+        out += vs
         return out
     out += vs
     if X.E == 1 and not vs:
